@@ -713,6 +713,67 @@ void scan_record(int ch, cps_t const &text, std::size_t k)
   vj::line(head + ",\"exc\":" + std::to_string(exc) + ",\"p1\":" + vj::arr(p1) + ",\"c1\":" + vj::arr(c1) + ",\"p2\":" + vj::arr(p2) + ",\"c2\":" + vj::arr(c2) + "}");
 }
 
+// Very long lines / very many lines with a handful of observations (a full scan record of such a text
+// would be megabytes): the text is pre ++ fill^n; the stream is read to the end, the position is recorded
+// in front of the characters at the offsets `at` (ascending), the k-th of them is restored after the end
+// has been reached, and one more position / character is recorded there.
+// {"f":"longline","ch":..,"pre":[..],"fill":c,"n":n,"at":[..],"pos":[off,line,col,...],"chr":[..],"k":k,
+//  "pos2":[off,line,col],"chr2":c,"exc":0|1}
+template <typename Ch>
+void longline_record(int ch, cps_t const &pre, long long const fill, std::size_t const n, std::vector<std::size_t> const &at, std::size_t const k)
+{
+  cps_t text(pre);
+  text.insert(text.end(), n, fill);
+  cps_t atl;
+  for (std::size_t a : at) atl.push_back(static_cast<long long>(a));
+  std::string const head{"{\"f\":\"longline\",\"ch\":" + std::to_string(ch) + ",\"pre\":" + vj::arr(pre) + ",\"fill\":" + std::to_string(fill) +
+                         ",\"n\":" + std::to_string(n) + ",\"at\":" + vj::arr(atl) + ",\"k\":" + std::to_string(k)};
+  std::basic_istringstream<Ch> iss{to_string<Ch>(text)};
+  iss.unsetf(std::ios_base::skipws);
+  fcppt::parse::detail::stream<Ch> st{fcppt::reference_to_base<std::basic_istream<Ch>>(fcppt::make_ref(iss))};
+  std::vector<fcppt::parse::position<Ch>> saved;
+  cps_t pos, chr, pos2;
+  long long chr2 = -2;
+  int exc = 0;
+  crash::Scope const scope{0, nullptr};
+  auto const record_pos = [&](cps_t &out, bool keep) {
+    fcppt::parse::position<Ch> const p{st.get_position()};
+    out.push_back(clampll(static_cast<long long>(std::streamoff(p.pos()))));
+    out.push_back(p.location().has_value() ? clampu(p.location().get_unsafe().line().get()) : 0);
+    out.push_back(p.location().has_value() ? clampu(p.location().get_unsafe().column().get()) : 0);
+    if (keep) saved.push_back(p);
+  };
+  try
+  {
+    std::size_t next = 0;
+    for (std::size_t o = 0; o <= text.size() + 2U; ++o)
+    {
+      bool const wanted = next < at.size() && at[next] == o;
+      if (wanted) record_pos(pos, true);
+      fcppt::optional::object<Ch> const c{st.get_char()};
+      if (wanted)
+      {
+        chr.push_back(c.has_value() ? code_of(c.get_unsafe()) : -1);
+        ++next;
+      }
+      if (!c.has_value()) break;
+    }
+    if (!saved.empty())
+    {
+      st.set_position(saved.at(k < saved.size() ? k : saved.size() - 1));
+      record_pos(pos2, false);
+      fcppt::optional::object<Ch> const c{st.get_char()};
+      chr2 = c.has_value() ? code_of(c.get_unsafe()) : -1;
+    }
+  }
+  catch (...)
+  {
+    exc = 1;
+  }
+  vj::line(head + ",\"exc\":" + std::to_string(exc) + ",\"pos\":" + vj::arr(pos) + ",\"chr\":" + vj::arr(chr) + ",\"pos2\":" + vj::arr(pos2) +
+           ",\"chr2\":" + std::to_string(chr2) + "}");
+}
+
 template <typename Ch>
 void replay_script(int ch, cps_t const &text, std::vector<Op> const &ops, int const kind = 0, long long const failat = -1, int const via = 0)
 {
@@ -828,6 +889,32 @@ try
       scan_record<char>(0, text, k);
       scan_record<wchar_t>(1, text, k);
     }
+    crash::disarm();
+    vj::close();
+    return 0;
+  }
+  if (mode == "longline" && argc >= 4)
+  {
+    // longline OUT SEED: lines longer than 2^16 columns and texts with more than 2^16 lines
+    vj::open(argv[2]);
+    crash::install();
+    std::uint64_t const seed = std::strtoull(argv[3], nullptr, 10);
+    vj::Rng rng{seed * 104729ULL + 17ULL};
+    std::vector<cps_t> const pres{cps_t{}, cps_t{97, 98, 10, 97}, cps_t{10, 10, 98}};
+    for (cps_t const &pre : pres)
+      for (long long const fill : {97LL, 10LL})
+      {
+        std::size_t const n = 66000U + static_cast<std::size_t>(rng.below(4000U));
+        std::size_t const lp = pre.size();
+        std::vector<std::size_t> at{0U, lp, lp + 254U, lp + 255U, lp + 256U, lp + 257U, lp + 32767U, lp + 32768U, lp + 65533U, lp + 65534U,
+                                    lp + 65535U, lp + 65536U, lp + 65537U, lp + n - 1U, lp + n};
+        at.push_back(lp + 300U + static_cast<std::size_t>(rng.below(60000U)));
+        std::sort(at.begin(), at.end());
+        at.erase(std::unique(at.begin(), at.end()), at.end());
+        std::size_t const k = static_cast<std::size_t>(rng.below(static_cast<std::uint64_t>(at.size())));
+        longline_record<char>(0, pre, fill, n, at, k);
+        longline_record<wchar_t>(1, pre, fill, n, at, at.size() - 1U - k);
+      }
     crash::disarm();
     vj::close();
     return 0;
